@@ -133,11 +133,15 @@ func AddStandardFilters(fd FilterDictionary) { //nolint: gocyclo
 			return divInt(int64(a), int64(q))
 		case int64:
 			return divInt(int64(a), q)
+		case uint:
+			return divInt(int64(a), int64(q))
 		case uint8:
 			return divInt(int64(a), int64(q))
 		case uint16:
 			return divInt(int64(a), int64(q))
 		case uint32:
+			return divInt(int64(a), int64(q))
+		case uint64:
 			return divInt(int64(a), int64(q))
 		case float32:
 			return divFloat(a, float64(q))
